@@ -394,6 +394,41 @@ pub fn random_image_string(rng: &mut Rng) -> String {
     s
 }
 
+/// Image strings for monitors that compare two documents byte for byte (so attribute-value normalisation is no
+/// concern): everything `random_image_string` yields, plus what real image references look like when they come out
+/// of a file or a MIME encoder - base64 data URIs wrapped at 76 / 64 characters with CRLF or LF, a trailing newline,
+/// TABs, leading and trailing blanks, an inline SVG document.
+pub fn random_image_string_raw(rng: &mut Rng) -> String {
+    if !rng.chance(1, 3) {
+        return random_image_string(rng);
+    }
+    const B64: &[u8] = b"ABCDEFGHIJKLMNOPQRSTUVWXYZabcdefghijklmnopqrstuvwxyz0123456789+/";
+    let body = |rng: &mut Rng, n: usize| -> String { (0..n).map(|_| *rng.pick(B64) as char).collect() };
+    match rng.below(7) {
+        0 | 1 | 2 => {
+            let width = *rng.pick(&[76usize, 64, 60, 1]);
+            let eol = *rng.pick(&["\r\n", "\n", "\r", "\n "]);
+            let n = 40 + rng.below(400);
+            let raw = body(rng, n);
+            let mut s = String::from(*rng.pick(&["data:image/png;base64,", "data:image/jpeg;base64,", "data:;base64,", "DATA:image/png;BASE64,"]));
+            for (i, ch) in raw.chars().enumerate() {
+                if i > 0 && i % width == 0 {
+                    s.push_str(eol);
+                }
+                s.push(ch);
+            }
+            if rng.chance(1, 2) {
+                s.push_str(eol);
+            }
+            s
+        }
+        3 => format!("{}\n", random_image_string(rng)),
+        4 => format!(" \t{} ", random_image_string(rng)),
+        5 => "data:image/svg+xml;utf8,<svg xmlns='http://www.w3.org/2000/svg'\n     viewBox='0 0 1 1'>\n\t<rect width='1' height='1'/>\n</svg>\n".to_string(),
+        _ => format!("https://example.com/a\tb\r\nc/{}.png", rng.below(100)),
+    }
+}
+
 /// random SVG-side spec (no raster options)
 pub fn random_svg_spec(rng: &mut Rng, size: usize, with_image: bool) -> Spec {
     let mut s = Spec::default();
